@@ -56,6 +56,7 @@ type line struct {
 	Pub      string `json:"pub"`
 	Msg      string `json:"msg"`
 	Ctx      string `json:"ctx"`
+	Seed     string `json:"seed"`
 	Note     string `json:"note"`
 }
 
@@ -184,7 +185,7 @@ func main() {
 					}
 					msg := vlib.Bytes(rng, ml)
 					t := v.Sign(sd, msg, ctx)
-					l := line{Ev: "sign", Curve: c.Name, Variant: v.Name, Class: fmt.Sprintf("seed#%d ctx=%d msg=%d", si, len(ctx), ml), RefPk: hx(t.PubBytes), RefSig: hx(t.Sig),
+					l := line{Ev: "sign", Curve: c.Name, Variant: v.Name, Class: fmt.Sprintf("seed#%d ctx=%d msg=%d", si, len(ctx), ml), RefPk: hx(t.PubBytes), RefSig: hx(t.Sig), Seed: hx(sd), Msg: hx(msg), Ctx: hx(ctx),
 						Hr: vlib.Digits(t.HR), Hk: vlib.Digits(t.HK), Q1: vlib.Quot(t.HR, c.L), Q2: vlib.Quot(t.HK, c.L), Rr: vlib.Digits(t.R), Kk: vlib.Digits(t.K), S: vlib.Digits(t.Secret)}
 					var pk, sig []byte
 					oc := vlib.Safe(60*time.Second, func() { pk, sig = libSign(v, sd, msg, ctx) })
